@@ -308,7 +308,13 @@ func runC08(c *ctx, r *Report) error {
 				}
 			}
 		}
-	}, nil, nil)
+	}, nil, func(cs Case) (string, string) {
+		// AL.Props.C08Json: the model reads the JSON text of a literal as written (keywords in lower case only)
+		if a, b := semaCodes(cs.Impl, "broken-json"), semaCodes(cs.Model, "broken-json"); a != b {
+			return "json-literal-not-read-as-written", "whether the string literal passed to fromJSON is well-formed JSON is decided differently from the JSON syntax (the contents of string literals are case-sensitive): implementation [" + a + "], JSON reader [" + b + "]"
+		}
+		return "", ""
+	})
 }
 
 type relErr struct{}
